@@ -100,8 +100,14 @@ class EventDataframeDataReader(AbstractDataframeDataReader):
         # [SPECIFIC] check_available_data
         df_event = df.copy(deep=True)
 
-        # Assert events columns are the only one available
-        assert (df_event.columns == [self.event_time_name, self.event_bool_name]).all()
+        # Events columns must be the only ones available (whatever their order in the dataframe)
+        event_columns = [self.event_time_name, self.event_bool_name]
+        if sorted(map(str, df_event.columns)) != sorted(map(str, event_columns)):
+            raise LeaspyDataInputError(
+                f"Event data should exactly contain the columns {event_columns}, "
+                f"not {df_event.columns.tolist()}."
+            )
+        df_event = df_event[event_columns]
 
         # Round
         df_event[self.event_time_name] = round(
